@@ -11,7 +11,9 @@
   Three further layers are modelled and proved:
   * the ORDERED-MAP layer: the key order is a strict total order and every iterator answer (plain / reverse / with flag-only
     keys / snapshot) is exactly the in-range part of the map in strictly ascending (descending) key order, for every call
-    sequence (`iter_is_sorted_filter`, `snapIter_is_sorted_filter`, `key_order_strict_total`);
+    sequence (`iter_is_sorted_filter`, `snapIter_is_sorted_filter`, `key_order_strict_total`); the batched snapshot iterator
+    (Model/Batched.lean ↔ membuffer_snapshot.go snapshotBatchedIter) equals the unbatched scan for every batch-size schedule
+    (`resume_key_is_successor`, `batched_iter_is_unbatched`);
   * the NODE-CONTAINER layer of the radix tree (Model/ArtNode.lean ↔ art_node.go node4/16/48/256: findChild, addChild with
     growth, replaceChild, iteration order), driven directly in the differential through the `n*` ops
     (`artnode_insert_lookup`, `artnode_addChild`, `artnode_replaceChild`);
@@ -29,6 +31,7 @@
 import ClientGoVerif.Proofs.MemBufOrder
 import ClientGoVerif.Proofs.ArtNode
 import ClientGoVerif.Proofs.ArtTreeTop
+import ClientGoVerif.Proofs.Batched
 namespace CGV.Props.C08
 open CGV CGV.MemBuf
 
@@ -343,6 +346,24 @@ theorem snapIter_is_sorted_filter (ops : List Op) (lo hi : Bytes) :
   obtain ⟨h1, h2⟩ := snapIter_sorted hi' lo hi
   exact ⟨_, rfl, by show Out.items _ = _; rw [h2], h1, fun it => snapIter_mem hi' lo hi false it⟩
 
+/-- The resume-key contract of the batched snapshot iterator: `lastKey ++ [0x00]` is the IMMEDIATE successor of `lastKey` in
+    the byte order — a key is at or above it exactly when it is strictly above `lastKey`, so nothing can be skipped and
+    nothing is seen twice. -/
+theorem resume_key_is_successor (k x : Bytes) : Bytes.lt x (succKey k) = false ↔ Bytes.lt k x = true :=
+  succKey_spec k x
+
+/-- GetSnapshot().BatchedSnapshotIter, after ANY sequence of calls, for EVERY batch-size schedule (positive sizes, long
+    enough to finish — the real one is 32, 64, …, 4096, 4096, …): cutting the scan into batches and resuming each forward batch
+    at the successor key of the last entry (each reverse batch below the last entry, stopping after the empty key) yields
+    exactly the unbatched snapshot scan of the same range — every key of the range once, in order. -/
+theorem batched_iter_is_unbatched (ops : List Op) (lo hi : Bytes) (sizes : List Nat) (hpos : ∀ s ∈ sizes, 0 < s) :
+    ((ordered false ((VLog.init.run ops).1.snapItems lo hi)).length < sizes.length →
+      (VLog.init.run ops).1.batchedFwd lo hi sizes = ordered false ((VLog.init.run ops).1.snapItems lo hi)) ∧
+    ((ordered true ((VLog.init.run ops).1.snapItems lo hi)).length < sizes.length →
+      (VLog.init.run ops).1.batchedRev lo hi sizes = ordered true ((VLog.init.run ops).1.snapItems lo hi)) := by
+  have hi' := (run_refines inv_init ops).2
+  exact ⟨batchedFwd_eq hi' hi sizes lo hpos, batchedRev_eq hi' lo sizes hi hpos⟩
+
 /-- the key order is a strict total order (the model of `bytes.Compare`) -/
 theorem key_order_strict_total (a b c : Bytes) :
     Bytes.lt a a = false ∧ (Bytes.lt a b = true → Bytes.lt b c = true → Bytes.lt a c = true) ∧
@@ -443,6 +464,7 @@ example :
 
 example : (ArtNode.Node.empty : ArtNode.Node Nat).WF := ⟨by simp [ArtNode.SortedK], rfl, by simp [ArtNode.cap4]⟩
 example : ([(5, 1), (3, 2), (9, 3)] : List (UInt8 × Nat)).map (·.1) |>.Nodup := by decide
+example : ∀ s ∈ batchSizes 5 32, 0 < s := by decide
 example : ArtTree.WFT [] ArtTree.Tree.empty := ArtTree.wf_empty
 example : Inv VLog.init := inv_init
 example : Inv (VLog.init.run [.set [1] [2] [], .staging, .set [1] [3, 4] [4], .checkpoint]).1 :=
